@@ -34,6 +34,19 @@ Theorem C01_mount_pins_toc :
 Proof. intros H T D os d. exact (mount_pins_toc H T D os d (LVerify d) (or_intror eq_refl)). Qed.
 Print Assumptions C01_mount_pins_toc.
 
+(* toc_digest_covers_parsed_toc: a layer is opened from a TOC stream (decoder = any partial function [dec] of the
+   stream; digest = H of the WHOLE stream, as both metadata stores compute it since the repair of C05-F24). If a
+   verification with digest d succeeds anywhere in any history, then d is the hash of that whole stream, and the
+   chunk tables in use (whose digests every later chunk check uses) are what the decoder made of exactly that stream:
+   the TOC used is a function of the hashed bytes. *)
+Theorem C01_toc_digest_covers_stream :
+  forall H dec stream s0 os d o, (o = VerifyTOC d \/ o = LVerify d) ->
+    open_layer H dec stream = Some s0 ->
+    snd (step H (exec H s0 os) o) = OOk ->
+    d = H stream /\ dec stream = Some (s_toc (exec H s0 os)).
+Proof. exact toc_digest_covers_stream. Qed.
+Print Assumptions C01_toc_digest_covers_stream.
+
 (* The cache invariant: in every reachable state, unless an unverified (skip-verify mode) on-demand read accepted
    altered bytes [s_tainted] or a prefetch recorded a verification failure [s_lasterr], every chunk that is in the
    cache or held by a not yet committed cache writer hashes to a digest recorded in the TOC for its key. *)
@@ -81,8 +94,9 @@ Print Assumptions C01_passthrough_verified.
    It is false of the faithful model and of the code: C01_reads_verified_refuted. What holds: *)
 
 (* A read (OpenFile + ReadAt, any offset/length, any bytes delivered for the chunks it has to fetch) on a verifying
-   reader that is not tainted returns, if it succeeds, a concatenation of slices of chunks of that file each of which
-   hashes to a digest recorded in the TOC for its key; and whether it succeeds or fails, the state after it is again
+   reader that is not tainted returns, if it succeeds, a concatenation of slices of cache entries / fetched chunks of
+   that file each of which is [goodcat] (one chunk, or the merged whole-file entry: only chunks hashing to their
+   recorded digests); and whether it succeeds or fails, the state after it is again
    a reachable, verifying, untainted state (so the same holds for every later read: nothing unverified stays behind). *)
 Theorem C01_reads_verified_partial :
   forall H T D os f off len fs, let s := exec H (init T D) os in
